@@ -383,6 +383,12 @@ example : windingNumber (K := ℚ) ⟨2, 4/3⟩ [⟨0,0⟩, ⟨4,0⟩, ⟨4,3⟩
   simp [windingNumber, polyEdges, wind, area2]
   norm_num
 
+/-- sanity of the orientation convention: the counter-clockwise unit square winds once around its centre and not at all
+around an outside point -/
+example : windingNumber (K := ℚ) ⟨1/2, 1/2⟩ [⟨0,0⟩, ⟨1,0⟩, ⟨1,1⟩, ⟨0,1⟩] = 1 ∧
+    windingNumber (K := ℚ) ⟨2, 1/2⟩ [⟨0,0⟩, ⟨1,0⟩, ⟨1,1⟩, ⟨0,1⟩] = 0 := by
+  constructor <;> (simp [windingNumber, polyEdges, wind, area2]; try norm_num)
+
 /-- … and the model (like the real code, see `corpus/C16.txt`) does accept that hexagon, with four counter-clockwise,
 area-conserving triangles of which the first and the last both contain `(2, 4/3)`: the `None, never a wrong tiling`
 clause fails for this non-simple input (KNOWN FINDING: no simplicity check). -/
